@@ -10,6 +10,12 @@ use std::collections::{BTreeSet, HashMap};
 use std::sync::{Arc, Condvar, Mutex};
 use std::time::{Duration, Instant};
 
+/// read transactions of harness threads known to be open right now (incremented inside `Readable::read` of a
+/// harness value type, i.e. while `Store::get_ser` has its LMDB read transaction open)
+pub static OPEN_READS: std::sync::atomic::AtomicU32 = std::sync::atomic::AtomicU32::new(0);
+/// how often the map was enlarged while such a read was open
+pub static RESIZE_UNDER_READ: std::sync::atomic::AtomicU32 = std::sync::atomic::AtomicU32::new(0);
+
 thread_local! {
 	static TID: Cell<Option<usize>> = Cell::new(None);
 }
@@ -59,6 +65,9 @@ pub enum Verdict {
 	Livelock(String),
 	Divergence(String),
 	Stuck(String),
+	/// the code under test was about to do something whose precondition is violated (the execution is
+	/// stopped before it does: what follows would be undefined behaviour)
+	Unsafe(String),
 }
 
 struct Inner {
@@ -496,6 +505,19 @@ impl Sched for Scheduler {
 	}
 	fn point(&self, label: &str) {
 		Scheduler::point(self, Req::Point(label.to_string()));
+		// the store is about to enlarge its memory map (nothing else runs before it does): LMDB requires that
+		// no transaction is open in the process then; the harness counts the reads it knows to be in flight
+		if label == "lmdb:resize" && OPEN_READS.load(std::sync::atomic::Ordering::SeqCst) > 0 && TID.with(|c| c.get()).is_some() {
+			RESIZE_UNDER_READ.fetch_add(1, std::sync::atomic::Ordering::SeqCst);
+			// stop here: remapping under a live reader is undefined behaviour (it may crash this process)
+			let mut g = self.inner.lock().unwrap();
+			if g.verdict.is_none() {
+				g.verdict = Some(Verdict::Unsafe("the store is about to enlarge its memory map (env.resize) while a get_ser of another thread has its LMDB read transaction open".into()));
+			}
+			drop(g);
+			self.cv.notify_all();
+			park_forever();
+		}
 	}
 	fn thread_spawn(&self, name: &str) -> Option<usize> {
 		TID.with(|c| c.get())?;
